@@ -26,6 +26,11 @@ def resolve_const(ck: Checker, fn: Func, e: ast.expr) -> Optional[str]:
             v = ck.prog.class_const(c, e.attr)
             if v is not None:
                 return resolve_const(ck, fn, v)
+    if isinstance(e, ast.Name):
+        # a module-level constant (not shadowed by a parameter / local of fn)
+        v = fn.module.consts.get(e.id)
+        if v is not None and not fn.has_param(e.id) and not any(isinstance(x, ast.Name) and x.id == e.id and isinstance(x.ctx, ast.Store) for x in ast.walk(fn.node)):
+            return resolve_const(ck, fn, v)
     return None
 
 
@@ -140,8 +145,9 @@ def check_from_list_rows(ck: Checker, rule: str) -> None:
         ck.require(not bad, rule, fl, n, "each row's key, meta and hash are computed from its own list entry only",
                    "a row takes values from state shared across entries (" + "; ".join(bad[:3]) + "): entries with the same hash but different per-path metadata come back with another entry's metadata",
                    construct=f"{n.text()} / per-entry provenance")
-    src = " ".join(norm(x) for x in walk_own(fl.node) if isinstance(x, ast.Call))
-    ck.require("Meta.from_dict(entry)" in src and ("HashInfo.from_dict(entry)" in src), rule, fl, fl.node, "meta and hash are parsed from the same entry dict", "from_list does not parse Meta and HashInfo from the same entry", construct="Meta.from_dict(entry) + HashInfo.from_dict(entry)")
+    margs = [norm(x.args[0]) for x in walk_own(fl.node) if isinstance(x, ast.Call) and norm(x.func) == "Meta.from_dict" and x.args]
+    hargs = [norm(x.args[0]) for x in walk_own(fl.node) if isinstance(x, ast.Call) and norm(x.func) == "HashInfo.from_dict" and x.args]
+    ck.require(bool(margs) and bool(hargs) and set(margs) == set(hargs) and len(set(margs)) == 1, rule, fl, fl.node, "meta and hash are parsed from the same entry dict", f"from_list does not parse Meta and HashInfo from the same entry (Meta from {margs}, HashInfo from {hargs})", construct="Meta.from_dict(entry) + HashInfo.from_dict(entry)")
 
 
 # --------------------------------------------------------------------------
